@@ -39,6 +39,9 @@ func (g *Gen) specLoad(env *Env, t types.Type, obj, off string) *Val {
 		if r := g.cellRanges(t, terms); r != "true" {
 			*env.side = append(*env.side, r)
 		}
+		if _, isSlice := t.Underlying().(*types.Slice); isSlice && g.view.opaqueSort(t) == "" && len(terms) == 4 {
+			*env.side = append(*env.side, fmt.Sprintf("(and (<= %s %s) (< %s 9223372036854775808) (or (>= %s 1) (= %s 0)))", terms[2], terms[3], terms[3], terms[0], terms[3]))
+		}
 		// references stored in a heap denote objects allocated when that heap was current
 		cs := g.lay.Cells(t)
 		if len(cs) == len(terms) && env.nextobj != "" {
@@ -382,6 +385,21 @@ func (g *Gen) specVal(env *Env, e *Expr) *Val {
 				} else {
 					body = and(append(bside, body)...)
 				}
+			}
+		}
+		if len(e.Pats) > 0 {
+			var pts []string
+			saved := sub.side
+			var dummy []string
+			sub.side = &dummy
+			for _, pe := range e.Pats {
+				if pv := g.specVal(sub, pe); pv != nil && len(pv.S) > 0 {
+					pts = append(pts, pv.S[0])
+				}
+			}
+			sub.side = saved
+			if len(pts) > 0 {
+				body = fmt.Sprintf("(! %s :pattern (%s))", body, strings.Join(pts, " "))
 			}
 		}
 		return scalar("Bool", fmt.Sprintf("(%s (%s) %s)", e.Op, strings.Join(decls, " "), body), nil)
